@@ -69,7 +69,7 @@ func c04Impl() *verifc04.Impl {
 			}
 			h.PackHint(b)
 		},
-		UnpackHint: func(b []byte) ([]verifc04.P, bool) {
+		UnpackHint: func(b []byte, out []verifc04.P) bool {
 			var h VecK
 			// poison: UnpackHint must define every coefficient itself
 			for i := range h {
@@ -78,11 +78,10 @@ func c04Impl() *verifc04.Impl {
 				}
 			}
 			ok := h.UnpackHint(b)
-			out := make([]verifc04.P, K)
 			for i := range h {
 				out[i] = verifc04.P(h[i])
 			}
-			return out, ok
+			return ok
 		},
 		DeriveUniform: func(p *verifc04.P, seed *[32]byte, nonce uint16) { PolyDeriveUniform(c04P(p), seed, nonce) },
 		DeriveUniformX4: func(ps [4]*verifc04.P, seed *[32]byte, nonces [4]uint16) {
